@@ -61,6 +61,7 @@ type InhJ struct {
 
 type Scenario struct {
 	Inhibit    []InhJ              `json:"inhibit_rules,omitempty"`
+	RouteLbls  map[string]string   `json:"route_labels,omitempty"` // `labels:` of the root route (values may be templates)
 	GW, GI, RI int64               `json:"-"`
 	GWs        string              `json:"group_wait"`
 	GIs        string              `json:"group_interval"`
@@ -87,6 +88,12 @@ func (sc *Scenario) YAML() string {
 	b.WriteString("route:\n  receiver: default\n")
 	fmt.Fprintf(&b, "  group_wait: %s\n  group_interval: %s\n  repeat_interval: %s\n", sc.GWs, sc.GIs, sc.RIs)
 	gb("  ", sc.GroupBy)
+	if len(sc.RouteLbls) > 0 {
+		b.WriteString("  labels:\n")
+		for _, k := range vh.SortedKeys(sc.RouteLbls) {
+			fmt.Fprintf(&b, "    %s: %q\n", k, sc.RouteLbls[k])
+		}
+	}
 	if len(sc.Routes) > 0 {
 		b.WriteString("  routes:\n")
 		for _, r := range sc.Routes {
@@ -156,6 +163,7 @@ type GenOpts struct {
 	NflogGC  bool
 	Flap     bool // emphasise resolve / re-fire around flushes and slow deliveries
 	Inhibit  bool // 1-2 inhibition rules over the scenario's label sets (drawn last: the other draws are unchanged)
+	RouteLbl bool // route labels on the root route, one of them a template over the group's alerts (no random draw)
 }
 
 func Gen(r *vh.Rand, o GenOpts) Scenario {
@@ -302,6 +310,9 @@ func Gen(r *vh.Rand, o GenOpts) Scenario {
 		if sc.Ops[i].Dt > lim {
 			sc.Ops[i].Dt = lim
 		}
+	}
+	if o.RouteLbl {
+		sc.RouteLbls = map[string]string{"team": "ops", "jobs": "{{ .CommonLabels.job }}", "n": "{{ len .Alerts }}"}
 	}
 	if o.Inhibit {
 		nr := r.Range(1, 2)
